@@ -30,6 +30,17 @@ theorem setReg_ne (s : St) {o o' : Nat} (r : Reg Sub) (h : o' ≠ o) : (s.setReg
 @[simp] theorem setReg_proc (s : St) (o r) : (s.setReg o r).proc = s.proc := rfl
 @[simp] theorem setReg_log (s : St) (o r) : (s.setReg o r).log = s.log := rfl
 
+@[simp] theorem setComp_depth (s : St) (c x) : (s.setComp c x).depth = s.depth := rfl
+@[simp] theorem setReg_depth (s : St) (o r) : (s.setReg o r).depth = s.depth := rfl
+@[simp] theorem leave_comps (sv : Option Nat) (s : St) : (leave sv s).comps = s.comps := rfl
+@[simp] theorem leave_regs (sv : Option Nat) (s : St) : (leave sv s).regs = s.regs := rfl
+@[simp] theorem leave_store (sv : Option Nat) (s : St) : (leave sv s).store = s.store := rfl
+@[simp] theorem leave_cur (sv : Option Nat) (s : St) : (leave sv s).cur = sv := rfl
+@[simp] theorem leave_dead (sv : Option Nat) (s : St) : (leave sv s).dead = s.dead := rfl
+@[simp] theorem leave_progs (sv : Option Nat) (s : St) : (leave sv s).progs = s.progs := rfl
+@[simp] theorem leave_log (sv : Option Nat) (s : St) : (leave sv s).log = s.log := rfl
+@[simp] theorem leave_depth (sv : Option Nat) (s : St) : (leave sv s).depth = s.depth - 1 := rfl
+
 @[simp] theorem alive_dirty (s : St) (c : Nat) : s.alive (.dirty c) = true := rfl
 
 /-! ### the registry of an owner whose observables all emit just `change` -/
@@ -1218,7 +1229,7 @@ theorem evalBody_spec {rec : Rec} (ih : IH rec) (c : Nat) (S : Nat → Prop) (hS
       ((removeParents s1 c).setComp c { x with parents := [], evals := x.evals + 1 }) :=
     StaticEq.of_setComp hc2 rfl rfl rfl
   generalize hs3 : ({ ((removeParents s1 c).setComp c { x with parents := [], evals := x.evals + 1 }) with
-      cur := some c } : St) = s3 at h
+      cur := some c, depth := (removeParents s1 c).depth + 1 } : St) = s3 at h
   have inv3 : Inv (fun q => S q ∨ q = c) NoP s3 := by
     subst hs3; exact inv3a.congr rfl rfl rfl (fun p hp => by cases hp; exact hSc')
   have se3 : StaticEq s1 s3 := by
@@ -1257,9 +1268,10 @@ theorem evalBody_spec {rec : Rec} (ih : IH rec) (c : Nat) (S : Nat → Prop) (hS
       have hx4f : x4.first = false := by rw [hx4]; exact hfirst
       have hx4e : x4.evals = x.evals + 1 := by rw [hx4]
       refine ⟨?_, ?_, hst4.trans hst3, rfl, hdead4.trans hdead3, ?_, ?_, ?_⟩
-      · exact Inv.finish inv4 hSc hc4 hx4f (by rw [hx4t]; exact hp) (fun e => by simpa using hmem4 e)
-          (fun e he => hcurr4 e (by simpa using (hmem4 e).mpr he)) hsaved
-      · have : StaticEq s4 { (s4.setComp c { x4 with value := some v, dirty := false }) with cur := saved } := by
+      · exact (Inv.finish (saved := saved) inv4 hSc hc4 hx4f (by rw [hx4t]; exact hp) (fun e => by simpa using hmem4 e)
+          (fun e he => hcurr4 e (by simpa using (hmem4 e).mpr he)) hsaved).congr rfl rfl rfl
+          (fun p hp => hsaved p hp)
+      · have : StaticEq s4 (leave saved (s4.setComp c { x4 with value := some v, dirty := false })) := by
           have := StaticEq.of_setComp (s := s4) (x' := { x4 with value := some v, dirty := false }) hc4 rfl rfl rfl
           exact ⟨this.progs, this.decls, this.comps⟩
         exact (se3.trans se4).trans this
@@ -1845,7 +1857,7 @@ theorem assign_spec (f : Nat) {k : Key} {v : Int} {s s' : St} {r : R} (w : Stat 
       injection h with h; injection h with h1 h2; subst h1 h2
       refine ⟨rfl, ?_, ⟨g3.progs, g3.decls, g3.comps⟩, g5.trans hcur, by simp [g4], ?_⟩
       · -- only `current` looks at the store
-        have hsl : ∀ k', St.isSlot { s1 with store := fun k' => if k' = k then v else s1.store k', proc := [] } k' ↔
+        have hsl : ∀ k', St.isSlot { s1 with store := fun k' => if k' = k then v else s1.store k' } k' ↔
             s1.isSlot k' := fun _ => Iff.rfl
         refine ⟨g2.stackDirty, fun p hp => g2.curStack p hp, g2.evald, ?_, g2.subsOf, ?_⟩
         · intro c x hx p0 v0 hp0
